@@ -10,7 +10,7 @@ together with the numpy primitives they are written with (`numpy.pad`, basic sli
 `numpy.any`, `operator.or_`, `ravel()[idx] = True`, `reshape`).
 Total, computable, core Lean only.
 -/
-namespace Ems
+namespace Ems.Clip
 
 /-- A two-dimensional boolean numpy array of shape `(ny, nx)`; `rows` is the C-order
 content row by row.  (The shape is carried explicitly so that `0 × n` arrays keep `n`.) -/
@@ -107,4 +107,4 @@ def gridClipMask (ny nx : Nat) (hits : List Nat) (buffer : Int) : Mask :=
 def arakawaClipMask (ny nx : Nat) (hits : List Nat) (buffer : Int) : CMask :=
   cMaskFromCentres (gridClipMask ny nx hits buffer)
 
-end Ems
+end Ems.Clip
